@@ -21,6 +21,8 @@ def run(ctx):
     from .restate import run_restated
     run_restated(ctx, [("C08", {"C08-a": "U = det L with L[a,b] = Σ x s s", "C08-b": "result.u is that determinant"}),
                        ("C09", {"C09-a": "u vectors u_l = Σ_e x_e s[e,l] p_e", "C09-b": "v = Σ x(m²+p²) − uᵀL⁻¹u",
+                                "C09-c": "the matrix inverted in V is L[a,b] = Σ x s s",
+                                "C09-d": "L⁻¹ is its inverse: Cholesky recurrence, nilpotent series, product wiring",
                                 "C09-e": "the Vector primitives u and V are written in are componentwise over all D components"})])
 
     # the formulas above are written in the scalar type's own operations; for the f64 instantiation those are decided by C20-a — restated
